@@ -10,7 +10,7 @@ open IdDsl IdAux
 
 /-! ### sums and c-factors depend on the variable *sets* only -/
 
-theorem sumVars_congr_set (card : Name → Nat) {xs ys : List Name} (hx : xs.Nodup) (hy : ys.Nodup)
+theorem IdAux.sumVars_congr_set (card : Name → Nat) {xs ys : List Name} (hx : xs.Nodup) (hy : ys.Nodup)
     (h : ∀ v, v ∈ xs ↔ v ∈ ys) (f : Val → Rat) : sumVars card xs f = sumVars card ys f :=
   sumVars_perm card ((List.perm_ext_iff_of_nodup hx hy).mpr h) f
 
@@ -19,12 +19,12 @@ theorem Scm.Q_congr_set (M : Scm) {S S' : List Name} (hS : S.Nodup) (hS' : S'.No
   M.Q_perm ((List.perm_ext_iff_of_nodup hS hS').mpr h)
 
 /-- split a sum over `xs` into the part satisfying `p` (outer) and the rest (inner) -/
-theorem sumVars_filter_split (card : Name → Nat) (xs : List Name) (p : Name → Bool) (f : Val → Rat) :
+theorem IdAux.sumVars_filter_split (card : Name → Nat) (xs : List Name) (p : Name → Bool) (f : Val → Rat) :
     sumVars card xs f = sumVars card (xs.filter p) (sumVars card (xs.filter (fun v => !p v)) f) := by
   rw [← sumVars_append]
   exact sumVars_perm card (List.filter_append_perm p xs).symm f
 
-theorem sumVars_zero (card : Name → Nat) (xs : List Name) (σ : Val) : sumVars card xs (fun _ => 0) σ = 0 := by
+theorem IdAux.sumVars_zero (card : Name → Nat) (xs : List Name) (σ : Val) : sumVars card xs (fun _ => 0) σ = 0 := by
   induction xs generalizing σ with
   | nil => rfl
   | cons x xs ih =>
@@ -35,7 +35,7 @@ theorem sumVars_zero (card : Name → Nat) (xs : List Name) (σ : Val) : sumVars
 
 /-! ### `sortNames` -/
 
-theorem insertNat_sorted_nodup {x : Name} {l : List Name} (h : l.Pairwise (· < ·)) :
+theorem IdAux.insertNat_sorted_nodup {x : Name} {l : List Name} (h : l.Pairwise (· < ·)) :
     (insertNat x l).Pairwise (· < ·) := by
   induction l with
   | nil => simp [insertNat]
@@ -58,7 +58,7 @@ theorem insertNat_sorted_nodup {x : Name} {l : List Name} (h : l.Pairwise (· < 
         · exact Nat.lt_of_le_of_ne (Nat.le_of_not_lt h1) (fun e => h2 e.symm)
         · exact ha.1 b hb
 
-theorem sortNames_sorted (l : List Name) : (sortNames l).Pairwise (· < ·) := by
+theorem IdAux.sortNames_sorted (l : List Name) : (sortNames l).Pairwise (· < ·) := by
   induction l with
   | nil => simp [sortNames]
   | cons a l ih =>
@@ -66,11 +66,11 @@ theorem sortNames_sorted (l : List Name) : (sortNames l).Pairwise (· < ·) := b
     simp only [List.foldr_cons]
     exact insertNat_sorted_nodup ih
 
-theorem sortNames_nodup (l : List Name) : (sortNames l).Nodup :=
+theorem IdAux.sortNames_nodup (l : List Name) : (sortNames l).Nodup :=
   (sortNames_sorted l).imp (fun h => Nat.ne_of_lt h)
 
 /-- summing over `sortNames r` is summing over any duplicate-free list with the same members -/
-theorem sumVars_sortNames (card : Name → Nat) {r xs : List Name} (hxs : xs.Nodup) (h : ∀ v, v ∈ r ↔ v ∈ xs)
+theorem IdAux.sumVars_sortNames (card : Name → Nat) {r xs : List Name} (hxs : xs.Nodup) (h : ∀ v, v ∈ r ↔ v ∈ xs)
     (f : Val → Rat) : sumVars card (sortNames r) f = sumVars card xs f :=
   sumVars_congr_set card (sortNames_nodup r) hxs (fun v => mem_sortNames.trans (h v)) f
 
@@ -95,12 +95,12 @@ theorem den_sumSafe (e : Expr) (r : List Name) (σ : Val) :
       congr 1
       simp [Var.plain, Function.comp_def]
 
-theorem denProd_eq (fs : List Expr) (σ : Val) : denProd env σ' fs σ = (fs.map (den env σ' · σ)).prod := by
+theorem IdAux.denProd_eq (fs : List Expr) (σ : Val) : denProd env σ' fs σ = (fs.map (den env σ' · σ)).prod := by
   induction fs with
   | nil => simp [denProd]
   | cons a l ih => simp [denProd, ih]
 
-theorem perm_sortBy {α : Type} (lt : α → α → Bool) (l : List α) : (sortBy lt l).Perm l := by
+theorem IdAux.perm_sortBy {α : Type} (lt : α → α → Bool) (l : List α) : (sortBy lt l).Perm l := by
   have ins : ∀ (x : α) (l : List α), (insertBy lt x l).Perm (x :: l) := by
     intro x l
     induction l with
@@ -155,7 +155,7 @@ theorem den_mkFrac {n d e : Expr} (h : mkFrac n d = .ok e) (σ : Val) :
   · cases h
   · cases h; simp [den]
 
-theorem den_prod_eq (fs : List Expr) (σ : Val) : den env σ' (.prod fs) σ = (fs.map (den env σ' · σ)).prod := by
+theorem IdAux.den_prod_eq (fs : List Expr) (σ : Val) : den env σ' (.prod fs) σ = (fs.map (den env σ' · σ)).prod := by
   simp [den, denProd_eq]
 
 theorem den_mul (a b : Expr) : ∀ e, mul a b = .ok e → ∀ σ, den env σ' e σ = den env σ' a σ * den env σ' b σ := by
